@@ -27,7 +27,7 @@ META = dict(
                '_selector_in_outputs', 'check_polling_config',
                'deserialise_set', 'repr_flow_nums'],
     bounds=['task pattern, cycle pattern, two recorded names: symbolic '
-            'strings, length 1..3 (quick: pattern <= 2, names <= 3), '
+            'strings: pattern length 1..2, names 1..2 (thorough 1..3), '
             'alphabet {a,A,b,_,%,*,?,[}', 'flow sets subsets of {1,2}, filter '
             'None/1/2/3', 'output queries: selector in {None, x, finished, '
             'finish, the x, e, fin} (the last three with flow set {1} only), '
@@ -291,7 +291,9 @@ def OBLIGATIONS(tier):
     big = tier == 'thorough'
     t = 1500 if big else 170
     obs = []
-    for plen in (1, 2, 3) if big else (1, 2):
+    for plen in (1, 2):
+        # (patterns of length 3 did not finish within the budget; thorough
+        # deepens the recorded names instead)
         sl_ = {'plen': plen, 'nlen': 3 if big else 2}
         obs.append(Ob(f'name_query[plen={plen}]', 'name_query', timeout=t,
                       slice=dict(sl_)))
